@@ -8,6 +8,9 @@ import vlib
 
 def run_scenarios(ctx, scenarios, name="conn", timeout_ms=3000, module="TraceConn", extra_constants=""):
     """Runs scenario dicts through `vharness conn`; returns (accepted ids, all ids, lines by id, line->scenario)."""
+    if len(scenarios) > 200000:
+        # scenario ids are line * 10000 + expansion index and must stay below 2^31 (TLC integers are 32 bit)
+        raise vlib.Inconclusive("%d scenario lines: more than the 200000 that 32-bit scenario ids allow" % len(scenarios))
     scen = os.path.join(ctx.work, name + "_scen.jsonl")
     vlib.write_jsonl(scen, scenarios)
     trace = os.path.join(ctx.work, name + ".ndjson")
